@@ -1,6 +1,11 @@
 """C01 / C02 / C03(scaled part) - scaled_integer arithmetic, division contract, comparisons (engine E-scaled)."""
 from .. import core
-from . import scaled_common
+from . import big, scaled_common
+
+# scaled_integer over Karatsuba-sized representations (beyond the 256-bit oracle): judged offline, see harness/big.h
+BIG = [("big scaled<wide<1087,i8>,-40> [+-*]", "cnl::scaled_integer<cnl::wide_integer<1087,signed char>,cnl::power<-40>>", "cnl::scaled_integer<cnl::wide_integer<1087,signed char>,cnl::power<-40>>", "+-*", 0),
+       ("big scaled<elastic<2100,w32>,-12> * scaled<elastic<2100,w32>,-7>", "cnl::scaled_integer<cnl::elastic_integer<2100,cnl::wide_integer<31,int>>,cnl::power<-12>>", "cnl::scaled_integer<cnl::elastic_integer<2100,cnl::wide_integer<31,int>>,cnl::power<-7>>", "*", 0),
+       ("big scaled<wide<4351,i32>,-100> [+-*]", "cnl::scaled_integer<cnl::wide_integer<4351,int>,cnl::power<-100>>", "cnl::scaled_integer<cnl::wide_integer<4351,int>,cnl::power<-100>>", "+-*", 0)]
 
 RULES = {
  "C01": "kernel = (operator in + - * unary-, Lhs rep, Lhs exponent, Rhs rep, Rhs exponent, radix 2|10, plain-integer operand flag), drawn from the frozen instantiable universe (matrix/scaled.json: fixed core + VERIF_SEED sample). ",
@@ -30,6 +35,8 @@ def run_prop(prop, tier, seed, only=None, extra_jobs=None):
             jobs.append(core.Job("%s-%d" % (prop.lower(), i), core.tu("c01.h", sh), cfg, env=env, timeout=3600))
     if extra_jobs and not only:
         jobs += extra_jobs(tier, seed, env)
+    if prop == "C01":
+        jobs += big.make_jobs("c01", BIG, tier, seed, cfgs, only)
     core.build_and_run(jobs, prop)
     for j in jobs:
         res.absorb(j)
@@ -44,6 +51,6 @@ def run_prop(prop, tier, seed, only=None, extra_jobs=None):
 
 def run(tier, seed, only=None):
     res = run_prop("C01", tier, seed, only)
-    return res.finish(RULES["C01"] + COMMON_RULE, assumptions=[
+    return res.finish(RULES["C01"] + COMMON_RULE + big.RULE, assumptions=[
         "exact oracle on 256-bit integers (rt/x256.h)", "programs whose scaling shift does not instantiate are not generated (frozen universe)",
         "wrapper reps covered: elastic_integer; overflow_integer/rounding_integer reps are exercised by C11/C12"])
